@@ -86,3 +86,7 @@ Definition includes_run (t:nat * list bool) : list Z :=
   let '(n,vs) := t in
   match run ccur includes_step (S (2 * n + 2)) (fun k => nth k vs false) 0 (mkcc n 1) with
   | None => [(-99)%Z] | Some m => [zn m] end.
+
+(* one observed transition of the real IndentPass: (formatter changed the text, cursor, verdict) -> next cursor / end *)
+Definition indent_case (t:bool*nat*bool) : list Z :=
+  let '(ch, c, b) := t in zopt (fun c' => [zn c']) (indent_step ch c b).
